@@ -60,6 +60,10 @@ type FS struct {
 	// each path. A path written on behalf of two sessions is state they share.
 	owner   string
 	touched map[string]string
+	// write fault window (C12): the first write inside it gets only part of
+	// its data out and returns an error (a full disk, a quota, a size limit)
+	wfault     bool
+	wfaultDone bool
 }
 
 // fsTouch records a mutating file-system call on path under the current owner.
@@ -267,6 +271,12 @@ func (ex *Exec) writeModel(of *openFile, data []Value) Value {
 		return Tuple{ex.ts.Const(64, 0), ex.pathError("write", of.f.path, "ErrClosed")}
 	}
 	ex.fsTouch(of.f.path)
+	if fs.wfault && !fs.wfaultDone && len(data) > 0 {
+		fs.wfaultDone = true
+		n := len(data) / 2
+		of.put(data[:n])
+		return Tuple{ex.ts.Const(64, uint64(n)), ex.pathError("write", of.f.path, "ErrInvalid")}
+	}
 	if fs.crashOn && len(data) > 0 {
 		fs.step++
 		fs.log = append(fs.log, "write "+of.f.path.Describe())
